@@ -377,6 +377,15 @@ func Catalogue(prop, tier string) []Cfg {
 				add(jc(disc, 3, false, 1, 5, 4, 50, []int64{0, 3, 5}, []int64{0}, nil))
 				add(jc(disc, 2, true, 1, 4, 3, 100, []int64{0, 2, 4}, []int64{0}, []int64{0, 4}))
 			}
+			// unite: oversize slices forwarded while the reader stalls for about a timeout
+			for _, nocopy := range []bool{false, true} {
+				u := jc("unite2", 2, nocopy, 0, 7, 4, 25, []int64{0}, []int64{0, 5}, nil)
+				u.Lens = []int{1, 2, 3}
+				add(u)
+				u = jc("unite2", 3, nocopy, 1, 8, 4, 50, []int64{0, 1}, []int64{0, 6}, nil)
+				u.Lens = []int{1, 3, 4}
+				add(u)
+			}
 			c := jc("join2", 2, false, 1, 3, 4, 25, []int64{0, 5}, []int64{0, 2}, nil)
 			c.Late, c.Horizon = 1, 30
 			add(c)
@@ -405,6 +414,21 @@ func Catalogue(prop, tier string) []Cfg {
 				c := jc(disc, 2, false, 2, 4, 8, 25, []int64{0, 1, 5, 9}, []int64{0}, []int64{0})
 				c.Mode, c.Tail = "flush", 20
 				add(c)
+				// a trickle aligned with the ticker that never fills JoinSize, buffered input
+				for _, nocopy := range []bool{false, true} {
+					c = jc(disc, 9, nocopy, 2, 7, 4, 25, []int64{0, 1}, []int64{0}, []int64{0})
+					c.Mode, c.Tail = "flush", 12
+					if disc == "unite2" {
+						c.Lens = []int{1}
+					}
+					add(c)
+					c = jc(disc, 9, nocopy, 3, 6, 4, 50, []int64{1, 2}, []int64{0}, []int64{0})
+					c.Mode, c.Tail = "flush", 12
+					if disc == "unite2" {
+						c.Lens = []int{1}
+					}
+					add(c)
+				}
 			}
 		case "C11":
 			for _, j := range []int{1, 2, 3} {
@@ -463,6 +487,11 @@ func Catalogue(prop, tier string) []Cfg {
 			for _, q := range []uint64{1 << 62, 1 << 63, 1<<63 + 1, 1<<64 - 1} {
 				add(lc(q, 3, 4, 3, nil, []int64{0}, "prefill"))
 				add(lc(q, 2, 0, 2, []int64{0, 1}, []int64{0, 1}, ""))
+			}
+			// arbitrary arrival patterns, prompt consumer: no element is held back beyond the rate constraint
+			for _, q := range []uint64{1, 2, 3} {
+				add(lc(q, 4, 0, int(q)+2, []int64{0, 1, 6, 9}, []int64{0}, ""))
+				add(lc(q, 4, 2, int(q)+2, []int64{0, 2, 5}, []int64{0}, ""))
 			}
 			c := lc(2, 3, 1, 4, []int64{0, 1, 3}, []int64{0, 1}, "")
 			c.Late, c.Horizon = 1, 20
